@@ -5,7 +5,8 @@ objects' public attributes (`accessory.aid/.services/.iid_manager`, `bridge.acce
 `service.type_id/.characteristics/.is_primary_service/.linked_services`,
 `characteristic.type_id/.properties/.display_name/.value/.getter_callback`) and never calls
 `to_HAP`, so nothing it returns can come from a cached representation.  It does not mutate
-anything: where a getter callback is installed it asks the callback (the harness installs
+anything: where the characteristic's class overrides the public `get_value()` it asks that accessor,
+where a getter callback is installed it asks the callback (the harness installs
 side-effect-free scripted getters) and validates the result with the characteristic's own
 public `to_valid_value` / `valid_value_or_raise` (value validation is C09's subject, not C11's).
 """
@@ -40,6 +41,13 @@ def full_type(t: str) -> str:
 def current_value(char) -> Any:
     """What a read of this characteristic returns now: the validated getter result when a
     getter callback is installed, else the stored value."""
+    if _overrides_get_value(char):
+        # an application subclass overriding the public accessor: the current value IS what that
+        # accessor answers now (the harness's subclass reads a scripted device, no side effects)
+        try:
+            return char.get_value()
+        except Exception as ex:  # noqa: BLE001
+            raise Raises(type(ex).__name__) from None
     getter = char.getter_callback
     if getter:
         try:
@@ -51,6 +59,17 @@ def current_value(char) -> Any:
         except Exception as ex:  # noqa: BLE001 - any failure of the callback / validation
             raise Raises(type(ex).__name__) from None
     return char.value
+
+
+def _overrides_get_value(char) -> bool:
+    from pyhap.characteristic import Characteristic
+
+    for k in type(char).__mro__:
+        if k is Characteristic:
+            return False
+        if "get_value" in vars(k):
+            return True
+    return False
 
 
 def render_char(char, iid_manager, include_value: bool, loader_name: Optional[str]) -> Dict[str, Any]:
